@@ -1,2 +1,572 @@
-import FpgoVerif.Model.C05
-/-! Property theorems for C05 (none yet). -/
+import FpgoVerif.Proofs.C05StreamSet
+import FpgoVerif.Proofs.C05Twins
+import FpgoVerif.Proofs.C05Judge
+/-! Property theorems for C05 — set algebra laws of the implementation models the driver executes
+    (`Model/C05Impl.lean`), for ALL inputs (any element type with decidable equality, any length,
+    any arity), and agreement of the generic / interface{} models where they are separate.
+
+    Scope note: the property demands the laws for non-empty operands only; most of them are proved
+    here without that restriction (they also hold for empty operands of the *slice functions*); where
+    the code really deviates for empty operands (`IsSubset`, the `Stream`/`MapSet`/`StreamSet`
+    guards) the theorem carries the non-emptiness hypothesis and an `example` shows it satisfiable. -/
+namespace FpgoVerif.C05
+variable {α : Type} [DecidableEq α]
+
+/-! ## slices (fp.go) -/
+
+/-- Distinct = first occurrences, in the order of the operand (documented: `[8,2,8,0,2,0] ↦ [8,2,0]`). -/
+theorem C05_distinct_order (l : List α) : distinct l = Spec.dedup l := distinct_eq l
+
+theorem C05_distinct_mem (l : List α) (x : α) : x ∈ distinct l ↔ x ∈ l := by
+  rw [distinct_eq]; exact Spec.mem_dedup x l
+
+theorem C05_distinct_nodup (l : List α) : (distinct l).Nodup := by
+  rw [distinct_eq]; exact Spec.nodup_dedup l
+
+example : distinct [8, 2, 8, 0, 2, 0] = [8, 2, 0] := by decide
+
+/-- Intersection (any arity ≥ 1): the first occurrences of the items of the first operand that occur
+    in every other operand, in the order of the first operand. -/
+theorem C05_intersection_order (a : List α) (rest : List (List α)) :
+    intersection (some (a :: rest)) =
+      .ok ((Spec.dedup a).filter (fun x => rest.all (fun l => decide (x ∈ l)))) := intersection_eq a rest
+
+/-- x ∈ Intersection as ↔ x is in all operands; the result has no duplicates. -/
+theorem C05_intersection_mem (as : List (List α)) (h : as ≠ []) :
+    ∃ r, intersection (some as) = .ok r ∧ r.Nodup ∧ ∀ x, x ∈ r ↔ ∀ a ∈ as, x ∈ a := by
+  cases as with
+  | nil => exact absurd rfl h
+  | cons a rest =>
+    refine ⟨_, intersection_eq a rest, ?_, ?_⟩
+    · exact List.Nodup.sublist List.filter_sublist (Spec.nodup_dedup a)
+    · intro x
+      simp only [List.mem_filter, Spec.mem_dedup, List.all_eq_true, decide_eq_true_eq, List.mem_cons,
+        forall_eq_or_imp]
+
+example : ([[1, 2, 1, 3], [3, 1], [1, 1, 3, 4]] : List (List Nat)) ≠ [] ∧
+    intersection (some [[1, 2, 1, 3], [3, 1], [1, 1, 3, 4]]) = .ok [1, 3] := by decide
+
+/-- Difference (any arity ≥ 1): first occurrences of the items of the first operand that occur in
+    none of the others, in the order of the first operand. -/
+theorem C05_difference_order (a : List α) (rest : List (List α)) :
+    difference (some (a :: rest)) =
+      .ok ((Spec.dedup a).filter (fun x => rest.all (fun l => decide (x ∉ l)))) := difference_eq a rest
+
+theorem C05_difference_mem (a : List α) (rest : List (List α)) :
+    ∃ r, difference (some (a :: rest)) = .ok r ∧ r.Nodup ∧ ∀ x, x ∈ r ↔ x ∈ a ∧ ∀ b ∈ rest, x ∉ b := by
+  refine ⟨_, difference_eq a rest, ?_, ?_⟩
+  · exact List.Nodup.sublist List.filter_sublist (Spec.nodup_dedup a)
+  · intro x
+    simp only [List.mem_filter, Spec.mem_dedup, List.all_eq_true, decide_eq_true_eq]
+
+example : difference (some [[1, 2, 1, 3, 5], [3], [2, 2]]) = .ok [1, 5] := by decide
+
+/-- x ∈ Union as ↔ x is in some operand (any arity, incl. 0). -/
+theorem C05_union_mem (as : List (List α)) (x : α) : x ∈ union as ↔ ∃ a ∈ as, x ∈ a := by
+  unfold union; rw [union_outer_mem]; simp [mkeys]
+
+theorem C05_union_nodup (as : List (List α)) : (union as).Nodup := by
+  unfold union; exact union_outer_nodup as [] (by simp [mkeys])
+
+/-- Minus keeps the items of the first operand that are not in the second — in order, duplicates kept. -/
+theorem C05_minus_order (a b : List α) : minus a b = a.filter (fun x => decide (x ∉ b)) := minus_eq a b
+
+theorem C05_minus_mem (a b : List α) (x : α) : x ∈ minus a b ↔ x ∈ a ∧ x ∉ b := by
+  rw [minus_eq]; simp
+
+/-- IsSubset(A,B) ↔ every element of A occurs in B — for non-empty operands (the code answers
+    `false` as soon as one operand is empty). -/
+theorem C05_isSubset_iff (a b : List α) (ha : a ≠ []) (hb : b ≠ []) :
+    isSubset a b = true ↔ ∀ x ∈ a, x ∈ b := by
+  have ha' : ¬ a.length = 0 := fun h => ha (List.length_eq_zero_iff.1 h)
+  have hb' : ¬ b.length = 0 := fun h => hb (List.length_eq_zero_iff.1 h)
+  simp [isSubset, ha', hb', isSubsetLoop_iff]
+
+theorem C05_isSuperset_iff (a b : List α) (ha : a ≠ []) (hb : b ≠ []) :
+    isSuperset a b = true ↔ ∀ x ∈ b, x ∈ a := C05_isSubset_iff b a hb ha
+
+example : ([1, 1, 2] : List Nat) ≠ [] ∧ ([2, 3, 1] : List Nat) ≠ [] ∧ isSubset [1, 1, 2] [2, 3, 1] = true ∧
+    isSubset [1, 4] [2, 3, 1] = false := by decide
+
+/-- outside the demanded scope the code answers `false` (so `[] ⊆ B` is *not* reported) -/
+theorem C05_isSubset_empty (a b : List α) (h : a = [] ∨ b = []) : isSubset a b = false := by
+  rcases h with h | h <;> simp [isSubset, h]
+
+/-- derived law: A = (A ∖ B) ∪ (A ∩ B) as sets -/
+theorem C05_partition_law (a b : List α) (x : α) :
+    x ∈ a ↔ x ∈ minus a b ∨ ∃ r, intersection (some [a, b]) = .ok r ∧ x ∈ r := by
+  rw [C05_minus_mem, intersection_eq]
+  constructor
+  · intro hx
+    by_cases hb : x ∈ b
+    · exact Or.inr ⟨_, rfl, by simp [Spec.mem_dedup, hx, hb]⟩
+    · exact Or.inl ⟨hx, hb⟩
+  · rintro (h | ⟨r, hr, hx⟩)
+    · exact h.1
+    · cases hr; simp [Spec.mem_dedup] at hx; exact hx.1
+
+/-- derived law: A ⊆ B ↔ A ∖ B = ∅ (non-empty operands) -/
+theorem C05_subset_iff_empty_difference (a b : List α) (ha : a ≠ []) (hb : b ≠ []) :
+    isSubset a b = true ↔ difference (some [a, b]) = .ok [] := by
+  rw [C05_isSubset_iff a b ha hb, difference_eq]
+  constructor
+  · intro h
+    congr 1
+    apply List.filter_eq_nil_iff.2
+    intro x hx
+    have := h x ((Spec.mem_dedup x a).1 hx)
+    simp [this]
+  · intro h x hx
+    have h' : (Spec.dedup a).filter (fun x => [b].all (fun l => decide (x ∉ l))) = [] := by
+      injection h
+    have := List.filter_eq_nil_iff.1 h' x ((Spec.mem_dedup x a).2 hx)
+    simpa using this
+
+/-! ## Stream methods -/
+
+/-- Stream.Intersection for a non-empty argument -/
+theorem C05_stream_intersection (s i : List α) (hi : i ≠ []) :
+    Stream.intersection s (some i) = (Spec.dedup s).filter (fun x => decide (x ∈ i)) ∧
+    (Stream.intersection s (some i)).Nodup ∧
+    ∀ x, x ∈ Stream.intersection s (some i) ↔ x ∈ s ∧ x ∈ i := by
+  have hi' : ¬ i.length = 0 := fun h => hi (List.length_eq_zero_iff.1 h)
+  have h := intersection_eq s [i]
+  simp only [intersection] at h
+  injection h with h
+  have e : Stream.intersection s (some i) = (Spec.dedup s).filter (fun x => decide (x ∈ i)) := by
+    simp only [Stream.intersection, hi', beq_iff_eq, if_false]
+    rw [show (1 : Nat) = [i].length from rfl, h]
+    apply List.filter_congr; intro x _; simp
+  refine ⟨e, ?_, ?_⟩
+  · rw [e]; exact List.Nodup.sublist List.filter_sublist (Spec.nodup_dedup s)
+  · intro x; rw [e]; simp [Spec.mem_dedup]
+
+example : ([2, 1] : List Nat) ≠ [] ∧ Stream.intersection [1, 3, 1, 2] (some [2, 1]) = [1, 2] := by decide
+
+/-- Stream.Minus / RemoveItem (any argument; a nil or empty argument returns the receiver) -/
+theorem C05_stream_minus (s : List α) (i : Option (List α)) (x : α) :
+    x ∈ Stream.minus s i ↔ x ∈ s ∧ x ∉ i.getD [] := by
+  cases i with
+  | none => simp [Stream.minus]
+  | some i =>
+    simp only [Stream.minus, Option.getD_some]
+    split
+    · rename_i h
+      have : i = [] := List.length_eq_zero_iff.1 (by simpa using h)
+      simp [this]
+    · exact C05_minus_mem s i x
+
+theorem C05_stream_removeItem (s input : List α) (x : α) :
+    x ∈ Stream.removeItem s input ↔ x ∈ s ∧ x ∉ input := by
+  unfold Stream.removeItem
+  split
+  · exact C05_minus_mem s input x
+  · rename_i h
+    have : input = [] := List.length_eq_zero_iff.1 (by omega)
+    simp [this]
+
+theorem C05_stream_isSubset (s i : List α) (hs : s ≠ []) (hi : i ≠ []) :
+    Stream.isSubset s (some i) = true ↔ ∀ x ∈ s, x ∈ i := by
+  have hi' : ¬ i.length = 0 := fun h => hi (List.length_eq_zero_iff.1 h)
+  simp only [Stream.isSubset, beq_iff_eq, hi', if_false]
+  exact C05_isSubset_iff s i hs hi
+
+theorem C05_stream_isSuperset (s i : List α) (hs : s ≠ []) (hi : i ≠ []) :
+    Stream.isSuperset s (some i) = true ↔ ∀ x ∈ i, x ∈ s := by
+  have hi' : ¬ i.length = 0 := fun h => hi (List.length_eq_zero_iff.1 h)
+  simp only [Stream.isSuperset, beq_iff_eq, hi', if_false]
+  exact C05_isSuperset_iff s i hs hi
+
+example : ([1, 2] : List Nat) ≠ [] ∧ ([2] : List Nat) ≠ [] ∧ Stream.isSuperset [1, 2] (some [2]) = true ∧
+    Stream.isSubset [1, 2] (some [2]) = false := by decide
+
+theorem C05_stream_distinct (s : List α) :
+    Stream.distinct s = Spec.dedup s ∧ (Stream.distinct s).Nodup ∧ ∀ x, x ∈ Stream.distinct s ↔ x ∈ s :=
+  ⟨distinct_eq s, C05_distinct_nodup s, C05_distinct_mem s⟩
+
+theorem C05_stream_contains (s : List α) (x : α) : Stream.contains s x = true ↔ x ∈ s := existsIn_iff x s
+
+/-! ## twins with separate models -/
+
+/-- `StreamDef.Remove` (fresh slice) and `StreamForInterfaceDef.Remove` (in-place shift) return the
+    same list for every receiver and every index (negative and out-of-range included). -/
+theorem C05_twin_streamRemove {β : Type} (s : List β) (index : Int) :
+    G.streamRemove s index = I.streamRemove s index := by
+  unfold G.streamRemove I.streamRemove
+  split
+  · rw [shiftDown_eq]
+  · rfl
+
+/-! ## map functions and MapSet / SetForInterface methods (by key)
+
+    A Go map has unique keys: the hypotheses `(mkeys m).Nodup` say exactly that. -/
+
+section ByKey
+variable {κ ν : Type} [DecidableEq κ]
+
+/-- Merge: k ∈ keys ↔ in one of the operands; the second operand's value wins. -/
+theorem C05_merge_keys (m1 m2 : GoMap κ ν) (k : κ) :
+    k ∈ mkeys (merge m1 m2) ↔ k ∈ mkeys m1 ∨ k ∈ mkeys m2 := mem_mkeys_merge m1 m2 k
+
+/-- IntersectionMapByKey (any arity ≥ 1): a key is in the result iff it is in every operand; the
+    counting pass (`countMap[k]++ … if v < inputLen { delete }`) is what is proved correct here. -/
+theorem C05_intersectionMapByKey_keys (ms : List (GoMap κ ν)) (hne : ms ≠ [])
+    (hms : ∀ m ∈ ms, (mkeys m).Nodup) (k : κ) :
+    k ∈ mkeys (intersectionMapByKey ms) ↔ ∀ m ∈ ms, k ∈ mkeys m :=
+  mem_mkeys_intersectionMapByKey ms hne hms k
+
+theorem C05_intersectionMapByKey_nodup (ms : List (GoMap κ ν)) : (mkeys (intersectionMapByKey ms)).Nodup :=
+  nodup_mkeys_intersectionMapByKey ms
+
+example : ([[(1, 10), (2, 20)], [(2, 21), (3, 31)], [(2, 22)]] : List (GoMap Nat Nat)) ≠ [] ∧
+    intersectionMapByKey [[(1, 10), (2, 20)], [(2, 21), (3, 31)], [(2, 22)]] = [(2, 20)] := by decide
+
+theorem C05_minusMapByKey_keys (a b : GoMap κ ν) (k : κ) :
+    k ∈ mkeys (minusMapByKey a b) ↔ k ∈ mkeys a ∧ k ∉ mkeys b := mem_mkeys_minusMapByKey a b k
+
+theorem C05_isSubsetMapByKey_iff (a b : GoMap κ ν) (ha : a ≠ []) (hb : b ≠ []) :
+    isSubsetMapByKey a b = true ↔ ∀ k ∈ mkeys a, k ∈ mkeys b := isSubsetMapByKey_iff a b ha hb
+
+/-- MapSet.Union (argument non-nil; an empty argument returns the receiver, which satisfies the law too) -/
+theorem C05_mapset_union_keys (m i : GoMap κ ν) (hm : (mkeys m).Nodup) (k : κ) :
+    (k ∈ mkeys (MapSet.union m (some i)) ↔ k ∈ mkeys m ∨ k ∈ mkeys i) ∧
+    (mkeys (MapSet.union m (some i))).Nodup := by
+  simp only [MapSet.union]
+  split
+  · rename_i h
+    have : i = [] := List.length_eq_zero_iff.1 (by simpa using h)
+    subst this
+    exact ⟨by simp [mkeys], hm⟩
+  · exact ⟨mem_mkeys_merge m i k, nodup_mkeys_merge m i⟩
+
+/-- MapSet.Intersection (unique keys in both operands) -/
+theorem C05_mapset_intersection_keys (m i : GoMap κ ν) (hm : (mkeys m).Nodup) (hi : (mkeys i).Nodup) (k : κ) :
+    (k ∈ mkeys (MapSet.intersection m (some i)) ↔ k ∈ mkeys m ∧ k ∈ mkeys i) ∧
+    (mkeys (MapSet.intersection m (some i))).Nodup := by
+  simp only [MapSet.intersection]
+  split
+  · rename_i h
+    have : i = [] := List.length_eq_zero_iff.1 (by simpa using h)
+    subst this
+    exact ⟨by simp [mkeys], by simp [mkeys]⟩
+  · refine ⟨?_, nodup_mkeys_intersectionMapByKey _⟩
+    rw [mem_mkeys_intersectionMapByKey [m, i] (by simp) (by
+      intro m' hm'
+      simp only [List.mem_cons, List.not_mem_nil, or_false] at hm'
+      rcases hm' with h | h <;> subst h <;> assumption)]
+    simp
+
+/-- MapSet.Minus -/
+theorem C05_mapset_minus_keys (m i : GoMap κ ν) (hm : (mkeys m).Nodup) (k : κ) :
+    (k ∈ mkeys (MapSet.minus m (some i)) ↔ k ∈ mkeys m ∧ k ∉ mkeys i) ∧
+    (mkeys (MapSet.minus m (some i))).Nodup := by
+  simp only [MapSet.minus]
+  split
+  · rename_i h
+    have : i = [] := List.length_eq_zero_iff.1 (by simpa using h)
+    subst this
+    exact ⟨by simp [mkeys], hm⟩
+  · simp only [MapSet.clone, duplicateMap_eq m hm]
+    refine ⟨?_, nodup_mkeys_foldl_del _ _ _ hm⟩
+    rw [mem_mkeys_foldl_del]
+    constructor
+    · rintro ⟨h1, h2⟩
+      refine ⟨h1, fun hk => ?_⟩
+      obtain ⟨p, hp, rfl⟩ := List.mem_map.1 h1
+      exact h2 p hp ((mhas_iff i p.1).2 hk) rfl
+    · rintro ⟨h1, h2⟩
+      refine ⟨h1, fun p _ hc hpk => ?_⟩
+      subst hpk
+      exact h2 ((mhas_iff i p.1).1 hc)
+
+example : MapSet.minus [(1, 10), (2, 20), (3, 30)] (some [(2, 0), (4, 0)]) = [(1, 10), (3, 30)] := by decide
+
+/-- IsSubsetByKey / IsSupersetByKey for non-empty operands -/
+theorem C05_mapset_isSubsetByKey (m i : GoMap κ ν) (hm : m ≠ []) (hi : i ≠ []) :
+    MapSet.isSubsetByKey m (some i) = true ↔ ∀ k ∈ mkeys m, k ∈ mkeys i := isSubsetMapByKey_iff m i hm hi
+
+theorem C05_mapset_isSupersetByKey (m i : GoMap κ ν) (hm : m ≠ []) (hi : i ≠ []) :
+    MapSet.isSupersetByKey m (some i) = true ↔ ∀ k ∈ mkeys i, k ∈ mkeys m := isSubsetMapByKey_iff i m hi hm
+
+example : ([(1, 0)] : GoMap Nat Nat) ≠ [] ∧ MapSet.isSubsetByKey [(1, 0)] (some [(2, 5), (1, 7)]) = true ∧
+    MapSet.isSupersetByKey [(1, 0)] (some [(2, 5), (1, 7)]) = false := by decide
+
+/-! ## twins with separate models: StreamSet "DUPLICATED ZONE" and constructors — all operands,
+    empty and nil included -/
+
+theorem C05_twin_ssMinus {β : Type} (m : GoMap κ (List β)) (input : Option (GoMap κ (List β))) :
+    G.ssMinus m input = I.ssMinus m input := by
+  cases input with
+  | none => rfl
+  | some i =>
+    simp only [G.ssMinus, I.ssMinus, MapSet.minus]
+    split <;> rfl
+
+theorem C05_twin_ssIsSubsetByKey {β : Type} (m : GoMap κ (List β)) (input : Option (GoMap κ (List β))) :
+    G.ssIsSubsetByKey m input = I.ssIsSubsetByKey m input := by
+  cases input with
+  | none => rfl
+  | some i =>
+    simp only [G.ssIsSubsetByKey, I.ssIsSubsetByKey, MapSet.isSubsetByKey]
+    split
+    · rename_i h
+      have : i = [] := List.length_eq_zero_iff.1 (by simpa using h)
+      exact isSubsetMapByKey_empty m i (Or.inr this)
+    · rfl
+
+theorem C05_twin_ssIsSupersetByKey {β : Type} (m : GoMap κ (List β)) (input : Option (GoMap κ (List β))) :
+    G.ssIsSupersetByKey m input = I.ssIsSupersetByKey m input := by
+  cases input with
+  | none => rfl
+  | some i =>
+    simp only [G.ssIsSupersetByKey, I.ssIsSupersetByKey, MapSet.isSupersetByKey, isSupersetMapByKey]
+    split
+    · rename_i h
+      have : i = [] := List.length_eq_zero_iff.1 (by simpa using h)
+      exact isSubsetMapByKey_empty i m (Or.inl this)
+    · rfl
+
+theorem C05_twin_streamSetFromMap {β : Type} (theMap : GoMap κ (List β)) :
+    G.streamSetFromMap theMap = I.streamSetFromMap theMap := by
+  simp only [G.streamSetFromMap, I.streamSetFromMap, duplicateMap]
+  split
+  · rfl
+  · cases theMap with
+    | nil => rfl
+    | cons p t => simp at *
+
+/-- the two constructors of a StreamSet result (`StreamSetFromMap(x)` copies, `&StreamSetForInterfaceDef{…: x}`
+    wraps) give the same content: Clone / Union / Intersection / MinusStreams agree on all operands -/
+theorem C05_twin_ssClone {β : Type} [DecidableEq β] (m : GoMap κ (List β)) : G.ssClone m = I.ssClone m := by
+  have h : (mkeys (duplicateMap m)).Nodup := by
+    unfold duplicateMap
+    split
+    · exact nodup_mkeys_mcopyInto _ _ (by simp [mkeys])
+    · simp [mkeys]
+  simp only [G.ssClone, I.ssClone, StreamSet.cloneW, duplicateMap_eq _ h, id]
+
+theorem C05_twin_ssUnion {β : Type} [DecidableEq β] (m : GoMap κ (List β)) (input : Option (GoMap κ (List β))) :
+    G.ssUnion m input = I.ssUnion m input := by
+  cases input with
+  | none => rfl
+  | some i => simp only [G.ssUnion, I.ssUnion, StreamSet.unionW, duplicateMap_eq _ (nodup_mkeys_merge m i), id]
+
+theorem C05_twin_ssIntersection {β : Type} [DecidableEq β] (m : GoMap κ (List β))
+    (input : Option (GoMap κ (List β))) : G.ssIntersection m input = I.ssIntersection m input := by
+  cases input with
+  | none => rfl
+  | some i =>
+    simp only [G.ssIntersection, I.ssIntersection, StreamSet.intersectionW,
+      duplicateMap_eq _ (nodup_mkeys_intersectionMapByKey [m, i]), id]
+
+theorem C05_twin_ssMinusStreams {β : Type} [DecidableEq β] (m : GoMap κ (List β))
+    (input : Option (GoMap κ (List β))) : G.ssMinusStreams m input = I.ssMinusStreams m input := by
+  have h := C05_twin_ssClone m
+  simp only [G.ssClone, I.ssClone] at h
+  cases input with
+  | none => rfl
+  | some i => simp only [G.ssMinusStreams, I.ssMinusStreams, StreamSet.minusStreamsW, h]
+
+end ByKey
+
+/-! ## StreamSet: by key, then per-key stream.  `(mget s k).getD []` is the stream under key `k`
+    (empty when the key is absent).  Scope of the property: non-empty key maps and non-empty per-key
+    streams; the hypotheses below are exactly the part of that scope each law needs. -/
+
+section StreamSetLaws
+variable {κ β : Type} [DecidableEq κ] [DecidableEq β]
+
+/-- StreamSet.Union: keys = union of the keys; under each key the items of both streams.
+    Needs the *argument's* streams non-empty (an empty stream in the argument overwrites the receiver's
+    stream — recorded observation, outside the demanded scope). -/
+theorem C05_streamset_union (m i : GoMap κ (List β)) (hm : (mkeys m).Nodup) (hi : (mkeys i).Nodup)
+    (hne : i ≠ []) (hstreams : ∀ k v2, mget i k = some v2 → v2 ≠ []) (k : κ) :
+    (k ∈ mkeys (G.ssUnion m (some i)) ↔ k ∈ mkeys m ∨ k ∈ mkeys i) ∧
+    ∀ x, x ∈ (mget (G.ssUnion m (some i)) k).getD [] ↔ x ∈ (mget m k).getD [] ∨ x ∈ (mget i k).getD [] := by
+  have hlen : (i.length == 0) = false := by simp [hne]
+  have e : mget (G.ssUnion m (some i)) k =
+      perKeyVal (fun v v2 => Stream.extend v [v2]) (mget m k) (mget i k) ((mget i k).orElse (fun _ => mget m k)) := by
+    simp only [G.ssUnion, StreamSet.unionW, hlen, Bool.false_eq_true, if_false,
+      duplicateMap_eq _ (nodup_mkeys_merge m i)]
+    rw [mget_perKey' _ _ _ _ hm, mget_merge m i hm hi]
+  simp only [mem_mkeys_iff_isSome]
+  rw [e]
+  unfold perKeyVal
+  cases hmk : mget m k with
+  | none => cases hik : mget i k <;> simp
+  | some v =>
+    cases hik : mget i k with
+    | none => simp
+    | some v2 =>
+      have : v2 ≠ [] := hstreams k v2 hik
+      have hl : v2.length > 0 := List.length_pos_iff.2 this
+      simp [hl, Stream.extend]
+
+example : G.ssUnion [(1, [1, 2]), (2, [5])] (some [(1, [2, 3]), (3, [7])]) = [(1, [1, 2, 2, 3]), (2, [5]), (3, [7])] := by
+  decide
+
+/-- StreamSet.Intersection: common keys; under each the items common to both streams (argument's streams non-empty) -/
+theorem C05_streamset_intersection (m i : GoMap κ (List β)) (hm : (mkeys m).Nodup) (hi : (mkeys i).Nodup)
+    (hne : i ≠ []) (hstreams : ∀ k v2, mget i k = some v2 → v2 ≠ []) (k : κ) :
+    (k ∈ mkeys (G.ssIntersection m (some i)) ↔ k ∈ mkeys m ∧ k ∈ mkeys i) ∧
+    ∀ x, x ∈ (mget (G.ssIntersection m (some i)) k).getD [] ↔ x ∈ (mget m k).getD [] ∧ x ∈ (mget i k).getD [] := by
+  have hlen : (i.length == 0) = false := by simp [hne]
+  have hnd := nodup_mkeys_intersectionMapByKey [m, i]
+  have e : mget (G.ssIntersection m (some i)) k =
+      perKeyVal Stream.intersection (if mhas i k then mget m k else none) (mget i k)
+        (if mhas i k then mget m k else none) := by
+    simp only [G.ssIntersection, StreamSet.intersectionW, hlen, Bool.false_eq_true, if_false,
+      duplicateMap_eq _ hnd]
+    rw [mget_perKey' _ _ _ _ hnd, mget_intersection2 m i hm hi]
+  simp only [mem_mkeys_iff_isSome]
+  rw [e]
+  unfold perKeyVal
+  cases hik : mget i k with
+  | none =>
+    have : mhas i k = false := by simp [mhas, hik]
+    simp [this]
+  | some v2 =>
+    have hh : mhas i k = true := by simp [mhas, hik]
+    have hv2 : v2 ≠ [] := hstreams k v2 hik
+    have hl : v2.length > 0 := List.length_pos_iff.2 hv2
+    cases hmk : mget m k with
+    | none => simp [hh]
+    | some v =>
+      simp only [hh, if_true, hl, Option.isSome_some, and_self, Option.getD_some, true_and]
+      intro x
+      exact (C05_stream_intersection v v2 hv2).2.2 x
+
+example : G.ssIntersection [(1, [1, 2, 1]), (2, [5])] (some [(1, [2, 1]), (3, [7])]) = [(1, [1, 2])] := by decide
+
+/-- StreamSet.MinusStreams: the receiver's keys; under each key the receiver's items that are not in the
+    argument's stream for that key (argument non-empty as a key map; its streams may be anything) -/
+theorem C05_streamset_minusStreams (m i : GoMap κ (List β)) (hm : (mkeys m).Nodup) (hne : i ≠ []) (k : κ) :
+    (k ∈ mkeys (G.ssMinusStreams m (some i)) ↔ k ∈ mkeys m) ∧
+    ∀ x, x ∈ (mget (G.ssMinusStreams m (some i)) k).getD [] ↔ x ∈ (mget m k).getD [] ∧ x ∉ (mget i k).getD [] := by
+  have hlen : (i.length == 0) = false := by simp [hne]
+  have hc : StreamSet.cloneW duplicateMap m = m := G_ssClone_eq m hm
+  have e : mget (G.ssMinusStreams m (some i)) k = perKeyVal Stream.minus (mget m k) (mget i k) (mget m k) := by
+    simp only [G.ssMinusStreams, StreamSet.minusStreamsW, hlen, Bool.false_eq_true, if_false, hc]
+    rw [mget_perKey' _ _ _ _ hm]
+  simp only [mem_mkeys_iff_isSome]
+  rw [e]
+  unfold perKeyVal
+  cases hmk : mget m k with
+  | none => cases hik : mget i k <;> simp
+  | some v =>
+    cases hik : mget i k with
+    | none => simp
+    | some v2 =>
+      by_cases hl : v2.length > 0
+      · simp only [hl, if_true, Option.isSome_some, Option.getD_some, true_and]
+        intro x
+        have := C05_stream_minus v (some v2) x
+        simpa using this
+      · have : v2 = [] := List.length_eq_zero_iff.1 (by omega)
+        subst this
+        simp
+
+example : G.ssMinusStreams [(1, [1, 2, 1]), (2, [5])] (some [(1, [1]), (3, [7])]) = [(1, [2]), (2, [5])] := by decide
+
+/-- StreamSet.Minus (by key): the receiver's keys that the argument does not have, streams untouched -/
+theorem C05_streamset_minus (m i : GoMap κ (List β)) (hm : (mkeys m).Nodup) (k : κ) :
+    (k ∈ mkeys (G.ssMinus m (some i)) ↔ k ∈ mkeys m ∧ k ∉ mkeys i) ∧
+    (k ∉ mkeys i → mget (G.ssMinus m (some i)) k = mget m k) := by
+  refine ⟨(C05_mapset_minus_keys m i hm k).1, ?_⟩
+  intro hk
+  simp only [G.ssMinus, MapSet.minus]
+  split
+  · rfl
+  · simp only [MapSet.clone, duplicateMap_eq m hm]
+    apply mget_foldl_del_keep
+    intro p _ hc hpk
+    subst hpk
+    exact hk ((mhas_iff i p.1).1 hc)
+
+/-- StreamSet.IsSubsetByKey / IsSupersetByKey (both families, non-empty key maps) -/
+theorem C05_streamset_isSubsetByKey (m i : GoMap κ (List β)) (hm : m ≠ []) (hi : i ≠ []) :
+    (G.ssIsSubsetByKey m (some i) = true ↔ ∀ k ∈ mkeys m, k ∈ mkeys i) ∧
+    (G.ssIsSupersetByKey m (some i) = true ↔ ∀ k ∈ mkeys i, k ∈ mkeys m) :=
+  ⟨isSubsetMapByKey_iff m i hm hi, isSubsetMapByKey_iff i m hi hm⟩
+
+example : ([(1, [1])] : GoMap Nat (List Nat)) ≠ [] ∧
+    G.ssIsSubsetByKey [(1, [1])] (some [(2, [0]), (1, [])]) = true ∧
+    I.ssIsSupersetByKey [(1, [1])] (some [(2, [0]), (1, [])]) = false := by decide
+
+end StreamSetLaws
+
+/-! ## the oracle (`judge`) accepts what the models compute: the Bool checks of `Spec` hold for the
+    results of the implementation models (so a model/implementation agreement can never be flagged, and
+    on a disagreement the oracle compares the real result with the laws, not with the model) -/
+
+theorem C05_judge_accepts_intersection (as : List (List Nat)) (h : as ≠ []) :
+    ∃ r, intersection (some as) = .ok r ∧ Spec.interOK as r = true := by
+  cases as with
+  | nil => exact absurd rfl h
+  | cons a rest =>
+    obtain ⟨r, hr, hnd, hmem⟩ := C05_intersection_mem (a :: rest) (by simp)
+    refine ⟨r, hr, ?_⟩
+    have hr' := intersection_eq a rest
+    rw [hr] at hr'
+    injection hr' with hr'
+    simp only [Spec.interOK, Bool.and_eq_true, List.headD_cons]
+    refine ⟨⟨Spec.members_of _ _ _ (fun x => ?_), (Spec.nodup_iff r).2 hnd⟩, Spec.ordered_of a r _ hr'⟩
+    rw [hmem x]; simp
+
+theorem C05_judge_accepts_difference (a : List Nat) (rest : List (List Nat)) :
+    ∃ r, difference (some (a :: rest)) = .ok r ∧ Spec.diffOK (a :: rest) r = true := by
+  obtain ⟨r, hr, hnd, hmem⟩ := C05_difference_mem a rest
+  refine ⟨r, hr, ?_⟩
+  have hr' := difference_eq a rest
+  rw [hr] at hr'
+  injection hr' with hr'
+  simp only [Spec.diffOK, Bool.and_eq_true, List.headD_cons, List.drop_succ_cons, List.drop_zero]
+  refine ⟨⟨Spec.members_of _ _ _ (fun x => ?_), (Spec.nodup_iff r).2 hnd⟩, Spec.ordered_of a r _ hr'⟩
+  rw [hmem x]; simp
+
+theorem C05_judge_accepts_union (as : List (List Nat)) : Spec.unionOK as (union as) = true := by
+  simp only [Spec.unionOK, Bool.and_eq_true]
+  refine ⟨Spec.members_of _ _ _ (fun x => ?_), (Spec.nodup_iff _).2 (C05_union_nodup as)⟩
+  rw [C05_union_mem]; simp
+
+theorem C05_judge_accepts_distinct (a : List Nat) : Spec.distinctOK a (distinct a) = true := by
+  simp only [Spec.distinctOK, Bool.and_eq_true]
+  refine ⟨⟨Spec.members_of _ _ _ (fun x => ?_), (Spec.nodup_iff _).2 (C05_distinct_nodup a)⟩, ?_⟩
+  · rw [C05_distinct_mem]; simp
+  · apply Spec.ordered_of a _ (fun _ => true)
+    rw [distinct_eq]; symm; exact List.filter_eq_self.2 (by simp)
+
+theorem C05_judge_accepts_minus (a b : List Nat) : Spec.minusOK a b (minus a b) = true := by
+  simp only [Spec.minusOK]
+  refine Spec.members_of _ _ _ (fun x => ?_)
+  rw [C05_minus_mem]; simp
+
+theorem C05_judge_accepts_isSubset (a b : List Nat) (ha : a ≠ []) (hb : b ≠ []) :
+    Spec.subsetOK a b (isSubset a b) = true := by
+  simp only [Spec.subsetOK, beq_iff_eq]
+  have := C05_isSubset_iff a b ha hb
+  cases h : isSubset a b with
+  | true => symm; simpa using this.1 h
+  | false =>
+    symm
+    cases h2 : a.all (b.contains ·) with
+    | false => rfl
+    | true =>
+      have : isSubset a b = true := this.2 (by simpa using h2)
+      simp [h] at this
+
+/-! ## closing theorems over the regenerated twin table (`Gen/Twins.lean`, rebuilt from the repository
+    on every run).  Identical code on the same comparable data gives identical answers (trusted: Go's
+    `==` / map lookup on `interface{}` values holding equal `int`s agrees with the typed one), so for
+    the pairs below ONE model serves both twins. -/
+
+/-- every pair modelled by a single function is still textually identical after type erasure -/
+theorem C05_twins_same : twinsSameOK Gen.twins = true := by decide +kernel
+
+/-- the pairs with separate `G.*` / `I.*` models still have exactly the bodies the models were written from -/
+theorem C05_twins_different_unchanged : twinsDifferentOK Gen.twins = true := by decide +kernel
+
+/-- there is no generic / interface{} pair without a model, and no interface{} function without a twin -/
+theorem C05_twins_complete : twinsCompleteOK Gen.twins Gen.twinsMissing = true := by decide +kernel
+
+end FpgoVerif.C05
